@@ -108,6 +108,9 @@ class SFTPAttributes:
             self.st_mtime = msg.get_int()
         if self._flags & self.FLAG_EXTENDED:
             count = msg.get_int()
+            # every pair takes at least two length words: never loop longer
+            # than the rest of the message can hold, whatever it announces
+            count = min(count, len(msg.get_remainder()) // 8)
             for i in range(count):
                 # read the key first (the right-hand side of an assignment
                 # is evaluated before the subscript of its target)
